@@ -146,8 +146,8 @@ def bash_glob_sets(items, subjects, *, nocase=False, dotglob=False, globstar=Fal
             names = r["out"].encode("latin-1").decode("utf-8", "replace").split("\n")
             names = [x for x in names if x != ""]
             mask = frozenset(k + 1 for k, sub in enumerate(allsub) if sub in made)
-            if names == [pat] and (len(subjects) + 1) not in mask:
-                continue    # bash did not treat the word as a pattern at all: no answer
+            if names == [pat]:
+                continue    # the word came back unchanged: bash did not treat it as a pattern (no answer)
             got = set()
             for nm in names:
                 for k in index.get(nm, ()):
@@ -187,7 +187,8 @@ def bash_oracle(vecs, subjects):
 
 ALT_DEVS = {"deadbracket", "nocaseclass", "asciiclass", "groupscan", "slashbracket"}      # = ShGlob!AltDevs
 LOOSE_MALFORMED = {"unclosed-group"}   # undefined constructs on which bash itself is erratic
-TRIGGER_DEVS = {"rangeclass", "dashfirst"}    # deviations with a trigger class only
+TRIGGER_DEVS = {"rangeclass"}                 # deviations with a trigger class only (any difference)
+TRIGGER_ERR_DEVS = {"rangeclass", "dashfirst"}   # ... whose known symptom is a syntax error
 ERR_DEVS = {"collating": "syntax", "openclass": "syntax", "negext": "negext"}   # deviation -> error kind it allows
 _DUMP = os.environ.get("VERIF_GLOB_DUMP")
 
@@ -247,7 +248,7 @@ def judge(ck, v, r, b, subjects):
             for d in allowed:
                 ck.notes["Dev_" + d] = ck.notes.get("Dev_" + d, 0) + 1
             return
-        trig = sorted(set(v["devs"]) & TRIGGER_DEVS)
+        trig = sorted(set(v["devs"]) & TRIGGER_ERR_DEVS) if r["errkind"] == "syntax" else []
         if trig:
             for d in trig:
                 ck.violation("Dev_" + d, rec)
@@ -361,14 +362,19 @@ def judge_interp(ck, v, ir, b, subjects):
     alt = v.get("alt") or {}
     if "unclosed-group" in v["malformed"]:
         ck.violation("Dev_unclosedgroup_matcher", rec); dump("dev", rec); return
-    if "negext" in v["devs"]:
-        # internal/pattern.go: "Only a single !(...) group with fixed-string prefix and suffix is supported"
+    if "negext" in v["devs"] and not v.get("negsimple") and not im:
+        # internal/pattern.go: "Only a single !(...) group with fixed-string prefix and suffix is supported":
+        # any other shape is an error there, which `case` turns into "no match"
         ck.violation("Dev_negext_matcher", rec); dump("dev", rec); return
+    if "negext" in v["devs"] and not v.get("negsimple"):
+        # ... but when the rest of the pattern has no `* ? [` the matcher takes it for a fixed string,
+        # extended operators included (`@()!()` then matches only text starting with "@()")
+        ck.violation("Dev_negext_matcher_affix", rec); dump("dev", rec); return
     if alt.get("on") and im == spec_set(alt, n):
         for d in sorted(set(v["devs"]) & ALT_DEVS):
             ck.violation("Dev_" + d, rec)
         dump("dev", rec); return
-    trig = sorted(set(v["devs"]) & TRIGGER_DEVS)
+    trig = sorted(set(v["devs"]) & (TRIGGER_ERR_DEVS if not im else TRIGGER_DEVS))
     if trig:
         for d in trig:
             ck.violation("Dev_" + d, rec)
